@@ -9,7 +9,7 @@ use iroh_docs::{
 use crate::c01::{cmessage, cwentry};
 use crate::c02::{self, Op, T0};
 use crate::common::*;
-use crate::wire::{decode_signed_entry, WEntry, WMessage, WPart};
+use crate::wire::{decode_signed_entry_caught, WEntry, WMessage, WPart};
 
 pub const MAXF: u64 = iroh_docs::sync::MAX_TIMESTAMP_FUTURE_SHIFT;
 pub const FROM: [u8; 32] = [9u8; 32];
@@ -173,9 +173,10 @@ pub fn run(seed: u64, n: usize, out: &Path, _thorough: bool) -> anyhow::Result<(
                     stats.inc(&format!("tamper_{}", t.kind));
                     let bytes = t.w.encode();
                     if t.w.id.len() < 64 {
-                        let r = match decode_signed_entry(&bytes) {
-                            Err(_) => "(Err EDecode)".to_string(),
-                            Ok(e) => {
+                        let r = match decode_signed_entry_caught(&bytes) {
+                            None => { stats.inc("panics"); crashed = true; "(Err EPanic)".to_string() }
+                            Some(Err(_)) => "(Err EDecode)".to_string(),
+                            Some(Ok(e)) => {
                                 let res = std::panic::catch_unwind(std::panic::AssertUnwindSafe(|| {
                                     rt.block_on(replica.insert_remote_entry(e, FROM, ContentStatus::Missing))
                                 }));
@@ -188,9 +189,10 @@ pub fn run(seed: u64, n: usize, out: &Path, _thorough: bool) -> anyhow::Result<(
                         step = format!("(ShortId {})", r);
                         jstep = format!("{{\"short_id_len\":{},\"result\":\"{}\"}}", t.w.id.len(), r);
                     } else {
-                        let e = decode_signed_entry(&bytes).expect("well-formed wire entry");
                         let ok = sig_ok(&t.w);
+                        // a decoder that panics on these bytes is reported like a panic of the insert
                         let res = std::panic::catch_unwind(std::panic::AssertUnwindSafe(|| {
+                            let e = decode_signed_entry_caught(&bytes).expect("the decoder panicked").expect("well-formed wire entry");
                             rt.block_on(replica.insert_remote_entry(e, FROM, ContentStatus::Missing))
                         }));
                         let (r_ok, r) = match &res {
@@ -230,9 +232,11 @@ pub fn run(seed: u64, n: usize, out: &Path, _thorough: bool) -> anyhow::Result<(
                         parts.push(WPart::Item { x: x.as_ref().to_vec(), y: y.as_ref().to_vec(), values, have_local });
                     }
                     let wm = WMessage { parts };
-                    let real = wm.to_real().expect("crafted message decodes");
                     let mut oc = SyncOutcome::default();
+                    // decoding is part of what is under test: a decoder panic is reported like a panic
+                    // while processing
                     let res = std::panic::catch_unwind(std::panic::AssertUnwindSafe(|| {
+                        let real = wm.to_real().expect("crafted message decodes");
                         rt.block_on(replica.sync_process_message(real, FROM, &mut oc))
                     }));
                     interesting = true;
